@@ -58,6 +58,7 @@ pub fn apply_event(e: &mut Emu, kind: i64, a: i64, b: i64, tape_img: &[u8], asse
                 e.load_snapshot(Snapshot::Sna(make_asset(asset_kind, &bytes, chunk))).map_err(|x| format!("load_snapshot: {:?}", x))?;
             }
         }
+        13 => e.set_fast_load(a != 0),
         _ => {}
     }
     Ok(())
@@ -97,8 +98,13 @@ impl C16 {
         let sound_toggle = !d.sound && (d.seed >> 20) & 1 == 1;
         let fastload = sc.get("fastload") != 0;
         let fastload_late = (d.seed >> 21) & 1 == 1;
-        let cfg = MCfg { m128, kempston: true, mouse: sc.get("mouse") != 0, ay: true, ay_mode: 1, sound: d.sound || sound_toggle, fastload: if fastload_late { !fastload } else { fastload }, ..Default::default() };
+        // a host that has no debugger at all (no debug interface installed) in a part of the drivings that never stop
+        let no_debug = d.mode != 3 && !d.calib && (d.seed >> 22) & 1 == 1;
+        let cfg = MCfg { m128, kempston: true, mouse: sc.get("mouse") != 0, ay: true, ay_mode: 1, sound: d.sound || sound_toggle, fastload: if fastload_late { !fastload } else { fastload }, debug: !no_debug, ..Default::default() };
         let mut e = new_emu(&cfg);
+        if no_debug {
+            ctx.probe("host_without_debug_interface");
+        }
         if fastload_late {
             ctx.probe("fastload_set_after_construction");
             e.set_fast_load(fastload);
@@ -372,7 +378,7 @@ impl Property for C16 {
         vec!["host inputs are applied only at frame boundaries (as the property states)", "audio streams are compared only between drivings that drain at every frame boundary"]
     }
     fn expected_probes(&self) -> Vec<&'static str> {
-        vec!["cmp_framecount_n", "cmp_max_mode", "cmp_breakpoints", "cmp_sound_off", "cmp_asset_kind", "cmp_repeat", "audio_compared", "loader_program", "sound_toggled_by_setter", "fastload_set_after_construction", "trap_at_frame_end", "tape_longer_than_256k"]
+        vec!["cmp_framecount_n", "cmp_max_mode", "cmp_breakpoints", "cmp_sound_off", "cmp_asset_kind", "cmp_repeat", "audio_compared", "loader_program", "sound_toggled_by_setter", "fastload_set_after_construction", "trap_at_frame_end", "tape_longer_than_256k", "host_without_debug_interface"]
     }
 
     fn gen(&self, rng: &mut Rng, tier: Tier, _idx: u64) -> Scenario {
@@ -404,6 +410,11 @@ impl Property for C16 {
                 // a tape longer than 256 KiB, fast-loaded block by block
                 sc.set("big", 1);
                 sc.set("fastload", 1);
+            } else if rng.chance(1, 4) {
+                // the ROM loader waits for a stopped tape with fast loading off; the host switches fast loading on
+                // later, between two frames
+                sc.set("fastload", 0);
+                sc.op("ev", &[rng.range(1, (k - 1).max(1)), 13, 1, 0]);
             } else if rng.bool() {
                 sc.op("ev", &[0, 7, 0, 0]);
             }
@@ -415,7 +426,7 @@ impl Property for C16 {
         let mut tape_loaded = false;
         for _ in 0..n_ev {
             let f = rng.range(0, k - 1);
-            let kind = *rng.pick(&[0i64, 0, 0, 1, 2, 3, 4, 5, 6, 7, 8, 9, 10, 11]);
+            let kind = *rng.pick(&[0i64, 0, 0, 1, 2, 3, 4, 5, 6, 7, 8, 9, 10, 11, 13]);
             let (a, b) = match kind {
                 0 => (rng.range(0, 39), rng.range(0, 1)),
                 1 => (rng.range(0, 6), rng.range(0, 1)),
@@ -425,6 +436,7 @@ impl Property for C16 {
                 5 => (rng.range(0, 1), 0),
                 6 => (rng.range(-128, 127), rng.range(-128, 127)),
                 10 => (rng.range(0x4000, 0xFFFF), rng.range(0, 255)),
+                13 => (rng.range(0, 1), 0),
                 _ => (0, 0),
             };
             if kind == 11 {
